@@ -78,12 +78,12 @@ def run(ctx):
     ctx.vh(race=True)
     pairs = list(itertools.combinations_with_replacement(methods, 2))
     procs = ctx.pick([4], [2, 4, 16])
-    reps = ctx.pick(1, 4)
+    reps = ctx.pick(1, 10)
     jobs = [(a, b, mp, k) for (a, b) in pairs for mp in procs for k in range(reps)]
 
     def one(job):
         a, b, mp, k = job
-        race, err = run_race(ctx, ["conc", "-mode", "pair", "-m1", a, "-m2", b, "-iters", ctx.pick(200, 600), "-g", 8], maxprocs=mp)
+        race, err = run_race(ctx, ["conc", "-mode", "pair", "-m1", a, "-m2", b, "-iters", ctx.pick(200, 1500), "-g", 8], maxprocs=mp)
         return dict(ev="pair", m1=a, m2=b, maxprocs=mp, race=race, predicted=tuple(sorted((a, b))) in predicted, report=err if race else "")
     with ThreadPoolExecutor(max_workers=8) as ex:
         events = list(ex.map(one, jobs))
